@@ -367,7 +367,7 @@ AltSeq(h, c0) == LET ctxB == IF c0 = "b0" THEN B0 ELSE <<>>
                      q == SetToSeq(S)
                  IN [i \in 1..Len(q) |-> Pat(q[i])]
 HasWild(h) == \E j \in 1..Len(Verdicts(h)) : Verdicts(h)[j].v = "wild"
-XRec(h, c0) == [op |-> "extract", hdr |-> h, ctx0 |-> c0, b0 |-> B0,
+XRec(h, c0) == [op |-> "extract", hdr |-> h, ctx0 |-> c0, b0 |-> B0, push |-> (Menu = "dup"),
                 exp |-> Pat(Extract(IF c0 = "b0" THEN B0 ELSE <<>>, FromHeader(h))),
                 alt |-> AltSeq(h, c0),
                 dev |-> IF FromHeaderDev(h) # FromHeader(h)
@@ -387,7 +387,9 @@ Init ==
   /\ IF Menu \in {"parse", "dup"}
        THEN \E h \in (IF Menu = "parse" THEN ParseHeaders ELSE DupHeaders) : \E c0 \in {"none", "b0"} :
               /\ (c0 = "b0" => ~HasWild(h) /\ Menu = "parse")
-              /\ hdr = h /\ objs = <<>>
+              \* Menu "dup": the extracted baggage is object #1 (abstractly: every valid member; what the real
+              \* object holds for a repeated key is the band of Pat) and is operated on below
+              /\ hdr = h /\ objs = (IF Menu = "dup" THEN <<FromHeader(h)>> ELSE <<>>)
               /\ last = [op |-> "extract", hdr |-> h, ctx0 |-> c0, res |-> FromHeader(h)]
               /\ hist = IF Hist THEN <<XRec(h, c0)>> ELSE <<>>
        ELSE \E o \in InitObjs :
@@ -415,7 +417,8 @@ ASetBad == More /\ \E o \in Objs : \E a \in BadArgs :
              /\ nops' = nops + 1 /\ UNCHANGED <<objs, hdr, devUsed>>
              /\ hist' = Ent([op |-> "setbad", o |-> o, k |-> a[1], v |-> a[2]])
 \* Inject through the propagator, then Extract into a fresh context
-ARoundTrip == nops < MaxOps /\ Menu \in {"ops", "rt1", "rt2"} /\ \E o \in Objs :
+ARoundTrip == nops < MaxOps /\ Menu \in {"ops", "rt1", "rt2", "dup"} /\ \E o \in Objs :
+             /\ (Menu = "dup" => nops = 1 /\ o = Len(objs) /\ ~HasDup(objs[o]))
              /\ Promised(objs[o])
              /\ objs' = Append(objs, Extract(<<>>, FromHeader(ToHeader(objs[o]))))
              /\ last' = [op |-> "rt", o |-> o, src |-> objs[o], res |-> Extract(<<>>, FromHeader(ToHeader(objs[o])))]
@@ -438,7 +441,24 @@ AAppendMember == Menu = "mix" /\ nops < MaxOps /\ \E m \in MemberMenu \cup MixMe
              /\ last' = [op |-> "extract", hdr |-> hdr', res |-> FromHeader(hdr')]
              /\ hist' = IF Hist THEN <<XRec(hdr', "none")>> ELSE <<>>
 
-Next == ASet \/ ADelete \/ ASetBad \/ ARoundTrip \/ AAppendMember
+\* Menu "dup": Set / Delete on the baggage that came out of the extraction (object #1) - for every key it holds
+\* (also one that several members stated) and for one it does not hold.  "Delete removes the key", "Set replaces
+\* an existing key" whatever baggage they are called on: NO entry with that key survives (Set: but the new one);
+\* the band of Pat stays only for the OTHER repeated keys (what extraction made of them).  When no repeated key is
+\* left the result is then sent through Inject + Extract.
+WithoutKN(B, k) == SelectSeq(B, LAMBDA e : Norm(e[1]) # Norm(k))
+XKeys(B) == {Norm(B[i][1]) : i \in 1..Len(B)} \cup {Str(<<"b">>)}
+XVal == Str(<<"op", "sp", "a", "sc", "b">>)
+DupOps == Menu = "dup" /\ nops = 0 /\ nops < MaxOps /\ Len(objs[1]) <= 5
+XCommit(op, k, v, res) ==
+  /\ objs' = Append(objs, res)
+  /\ last' = [op |-> op, o |-> 1, src |-> objs[1], k |-> k, v |-> v, res |-> res]
+  /\ nops' = nops + 1 /\ UNCHANGED <<hdr, devUsed>>
+  /\ hist' = Ent([op |-> op, o |-> 1, k |-> k, v |-> v, exp |-> Pat(res)])
+AXDelete == DupOps /\ \E k \in XKeys(objs[1]) : XCommit("xdel", k, <<>>, WithoutKN(objs[1], k))
+AXSet    == DupOps /\ \E k \in XKeys(objs[1]) : XCommit("xset", k, XVal, <<<<k, XVal>>>> \o WithoutKN(objs[1], k))
+
+Next == ASet \/ ADelete \/ ASetBad \/ ARoundTrip \/ AAppendMember \/ AXDelete \/ AXSet
 Spec == Init /\ [][Next]_vars
 
 (* ---- the property --------------------------------------------------------- *)
@@ -484,6 +504,14 @@ DupBand == (last.op = "extract" /\ NoWildIn(last.res)) =>
                      /\ \A i \in own : ~Allowed(it, RemoveAt1(it, i))
                      /\ \A i, j \in own : i < j =>
                            ~Allowed(it, [x \in 1..Len(it) |-> IF x = i THEN it[j] ELSE IF x = j THEN it[i] ELSE it[x]])
+\* Set / Delete on an extracted baggage: the key is gone (Set: listed once, with the new value), every entry with
+\* another key is still there as often as before, in the same order
+XOpsRemove == last.op \in {"xdel", "xset"} =>
+                LET nk == Norm(last.k)
+                    at == {i \in 1..Len(last.res) : Norm(last.res[i][1]) = nk}
+                IN /\ (last.op = "xdel" => at = {})
+                   /\ (last.op = "xset" => at = {1} /\ last.res[1] = <<last.k, last.v>>)
+                   /\ SelectSeq(last.res, LAMBDA e : Norm(e[1]) # nk) = SelectSeq(last.src, LAMBDA e : Norm(e[1]) # nk)
 \* generated headers with a repeated key stay within the member-count limit (which members "the first 180" are
 \* when some of them share a key is not pinned)
 DupWithinLimit == (last.op = "extract" /\ HasDup(last.res)) => Len(MembersOf(last.hdr)) <= MaxMembers
@@ -493,6 +521,8 @@ OriginalUntouched == [][\A i \in 1..Len(objs) : objs'[i] = objs[i]]_vars
 View == bvars
 Done == nops = MaxOps
 EmitAll == Done => PrintT(<<"BEH", ToJson(hist)>>)
+EmitDup == (Menu = "dup" /\ (nops = MaxOps \/ (nops = 1 /\ (HasDup(objs[Len(objs)]) \/ ~Promised(objs[Len(objs)]))) \/ (nops = 0 /\ Len(objs[1]) > 5)))
+           => PrintT(<<"BEH", ToJson(hist)>>)
 EmitMix == (Menu = "mix" /\ nops >= 1) => PrintT(<<"BEH", ToJson(hist)>>)
 WitDev == (hist # <<>> /\ hist[1].op = "extract" /\ hist[1].dev # <<>>) => (PrintT(<<"BEH", ToJson(hist)>>) /\ FALSE)
 =============================================================================
